@@ -210,6 +210,13 @@ pub fn world_cfg(prop: &str, rng: &mut Rng) -> WorldCfg {
             if matches!(prop, "C09" | "C10") {
                 c.odd_widths = rng.chance(1, 4);
             }
+            if prop == "C13" && rng.chance(1, 3) {
+                // chained buffers, some ending in an error: the flattened entry point must be
+                // the concatenation over the non-error packets
+                c.coalesce = 400;
+                c.count_flowsets = true;
+                c.data_before_template = 150;
+            }
             if prop == "C13" {
                 c.projected_bias = true;
                 c.unknown_types = rng.chance(1, 4);
